@@ -70,6 +70,10 @@ func c17MakeTree(t testing.TB, root string) *c17Tree {
 		// case-sensitive file system, which no lower-case pattern matches in a
 		// literal position
 		"SAFE/a.txt", "safe/A.txt", "safe/a.TXT", "safe/sub/C.txt",
+		// names that are the text of a glob (class, escape, negated class) which
+		// does not match its own text, and a name with a literal star, which the
+		// escaped pattern does match
+		"safe/[ab].txt", "safe/\\*.txt", "safe/[^a].txt", "safe/*.txt",
 	}
 	tr.rel = rel
 	for i, r := range rel {
@@ -387,6 +391,12 @@ func c17SafeByMatch(pats []string, p string) bool {
 
 // c17CheckLoad: marker m appeared for a list whose location is loc.
 func c17CheckLoad(tr *c17Tree, pats []string, loc string, m int) (ok bool, msg string) {
+	return c17CheckLoadX(tr, nil, pats, loc, m)
+}
+
+// c17CheckLoadX: extra maps the markers of files created for one history only
+// to their paths.
+func c17CheckLoadX(tr *c17Tree, extra map[int]string, pats []string, loc string, m int) (ok bool, msg string) {
 	switch {
 	case m == 0:
 		return true, ""
@@ -400,6 +410,9 @@ func c17CheckLoad(tr *c17Tree, pats []string, loc string, m int) (ok bool, msg s
 		return true, ""
 	}
 	p, known := tr.byMark[m]
+	if ep, isExtra := extra[m]; isExtra {
+		p, known = ep, true
+	}
 	if !known {
 		return true, "" // pre-planted content
 	}
@@ -512,6 +525,14 @@ func c17PatternSets(R string) [][]string {
 		{R + "/safe/[a-z].txt", R + "/safe/sub/c.txt"},
 		{R + "/SAFE/*", R + "/safe/A.*"},
 		{R + "/safe/*.TXT", R + "/safe/[A-Z].txt"},
+		// the glob space: classes, negated classes, escapes; for the first three
+		// a file named exactly like the pattern exists and is not matched by it,
+		// the last two match the file whose name contains the brackets
+		{R + "/safe/[ab].txt"},
+		{R + "/safe/\\*.txt"},
+		{R + "/safe/[^a].txt", R + "/safe/[a-b].txt"},
+		{R + "/safe/[[]ab].txt"},
+		{R + "/safe/\\[ab\\].txt", R + "/safe/\\[^a].txt"},
 	}
 }
 
@@ -663,8 +684,42 @@ func (tr *c17Tree) ObsCoq(obs []c17Obs) string {
 	return vfList("eobs", items)
 }
 
+// c17Extra is a file that exists for one history only (name relative to the
+// root, marker of its content).
+type c17Extra struct {
+	Rel    string `json:"rel"`
+	Marker int    `json:"marker"`
+}
+
 // c17History runs one history and emits one case.
 func c17History(t *testing.T, out *vfOut, tr *c17Tree, dataDir string, pats []string, block, allow []c17Plant, ops []c17Op, classes []string) {
+	c17HistoryX(t, out, tr, dataDir, nil, pats, block, allow, ops, classes)
+}
+
+// c17HistoryX is c17History with files created for this history only.
+func c17HistoryX(t *testing.T, out *vfOut, tr *c17Tree, dataDir string, extra []c17Extra, pats []string, block, allow []c17Plant, ops []c17Op, classes []string) {
+	extraByMark := map[int]string{}
+	for _, e := range extra {
+		p := filepath.Join(tr.root, e.Rel)
+		if err := os.MkdirAll(filepath.Dir(p), 0o755); err != nil {
+			t.Fatal(err)
+		}
+		if err := os.WriteFile(p, []byte(c17Content(e.Marker)), 0o644); err != nil {
+			t.Fatal(err)
+		}
+		extraByMark[e.Marker] = p
+	}
+	if len(extra) > 0 {
+		defer func() {
+			for _, e := range extra {
+				_ = os.Remove(filepath.Join(tr.root, e.Rel))
+			}
+			// the directories of the extra files (never one of the tree's own)
+			for _, e := range extra {
+				_ = os.Remove(filepath.Dir(filepath.Join(tr.root, e.Rel)))
+			}
+		}()
+	}
 	d, err := c17New(t, dataDir, pats, block, allow)
 	if err != nil {
 		out.Class("pattern-rejected-at-config")
@@ -717,7 +772,7 @@ func c17History(t *testing.T, out *vfOut, tr *c17Tree, dataDir string, pats []st
 							classes = append(classes, "http-loaded")
 						}
 					}
-					if ok, msg := c17CheckLoad(tr, pats, r.URL, r.Loaded); !ok {
+					if ok, msg := c17CheckLoadX(tr, extraByMark, pats, r.URL, r.Loaded); !ok {
 						fail(op.Kind + ": " + msg)
 					}
 				}
@@ -731,13 +786,24 @@ func c17History(t *testing.T, out *vfOut, tr *c17Tree, dataDir string, pats []st
 		}
 	}
 	httpL, urlok := c17CoqHTTP(locs)
+	coq := vfApp("CHist", vfBytes(tr.root), vfN(tr.mask), tr.PList(pats), httpL, urlok,
+		tr.Rows2Coq(c17PlantRows(block)), tr.Rows2Coq(c17PlantRows(allow)), tr.OpsCoq(ops), tr.ObsCoq(obs))
+	desc := map[string]any{"op": "history", "patterns": pats, "block": block, "allow": allow, "ops": ops, "obs": obs}
+	if len(extra) > 0 {
+		items := make([]string, len(extra))
+		for i, e := range extra {
+			items[i] = "(" + vfBytes(e.Rel) + ", " + vfN(uint64(e.Marker)) + ")"
+		}
+		coq = vfApp("CHistF", vfBytes(tr.root), vfN(tr.mask), vfList("bytes * N", items), tr.PList(pats), httpL, urlok,
+			tr.Rows2Coq(c17PlantRows(block)), tr.Rows2Coq(c17PlantRows(allow)), tr.OpsCoq(ops), tr.ObsCoq(obs))
+		desc["extra_files"] = extra
+	}
 	c := vfCase{
-		Coq: vfApp("CHist", vfBytes(tr.root), vfN(tr.mask), tr.PList(pats), httpL, urlok,
-			tr.Rows2Coq(c17PlantRows(block)), tr.Rows2Coq(c17PlantRows(allow)), tr.OpsCoq(ops), tr.ObsCoq(obs)),
+		Coq:        coq,
 		Nontrivial: nontrivial,
 		Classes:    classes,
 		MonitorOK:  monOK, MonitorMsg: monMsg,
-		Desc: map[string]any{"op": "history", "patterns": pats, "block": block, "allow": allow, "ops": ops, "obs": obs},
+		Desc: desc,
 	}
 	if !monOK {
 		c.FindingKey = "C17-" + vfHash(monMsg, pats, ops)
@@ -822,6 +888,123 @@ func c17GenHistory(r *vfRand, tr *c17Tree, n int) (block, allow []c17Plant, ops 
 		}
 	}
 	return block, allow, ops, classes
+}
+
+// c17GlobNames are file names that are also the text of a glob: classes,
+// negated classes, ranges, escapes, malformed ones.
+var c17GlobNames = []string{"[ab]", "[a-b]x", "[^a]", "[^a-b]b", "\\*", "\\a", "\\[a\\]", "[\\]]", "a[b]", "[a]*", "?[x]", "[*]", "[?]", "[a-]",
+	"[]a]", "[a", "a\\", "[^]", "[-]", "[a]", "[[]", "\\\\", "[b-a]", "[a][b]", "*[a]", "[x].?", "\\?", "[\\a]", "[^^]", "^a", "a]"}
+
+func c17GenGlobName(r *vfRand) string {
+	if r.Chance(1, 2) {
+		return vfPick(r, c17GlobNames)
+	}
+	const al = "ab[]^-\\*?x."
+	for {
+		n := 1 + r.Intn(6)
+		b := make([]byte, n)
+		for i := range b {
+			b[i] = al[r.Intn(len(al))]
+		}
+		if s := string(b); s != "." && s != ".." {
+			return s
+		}
+	}
+}
+
+// c17GenGlobHistory: one to three generated patterns in the directory g of the
+// tree; for every pattern a file named exactly like the pattern's text, plus
+// candidates the patterns may match; the locations of the history are those
+// files in several spellings, planted and through add / set_url / refresh /
+// periodic.
+func c17GenGlobHistory(r *vfRand, tr *c17Tree) (pats []string, extra []c17Extra, block, allow []c17Plant, ops []c17Op, classes []string) {
+	R := tr.root
+	have := map[string]bool{}
+	addFile := func(name string, m int) {
+		if !have[name] {
+			have[name] = true
+			extra = append(extra, c17Extra{Rel: "g/" + name, Marker: m})
+		}
+	}
+	for i, k := 0, 1+r.Intn(3); i < k; i++ {
+		name := c17GenGlobName(r)
+		pats = append(pats, R+"/g/"+name)
+		addFile(name, 21+i)
+	}
+	for i, name := range []string{"a", "b", "ab", "x", "*", "[", "ax", "bb", "^"} {
+		addFile(name, 31+i)
+	}
+	if r.Chance(1, 6) {
+		pats = append(pats, R+"/safe/*.txt")
+	}
+	pool := []string{}
+	for _, e := range extra {
+		p := R + "/" + e.Rel
+		pool = append(pool, p)
+		if r.Chance(1, 4) {
+			pool = append(pool, vfPick(r, []string{R + "/g/../" + e.Rel, R + "//" + e.Rel, p + "/", "file://" + p, e.Rel, R + "/safe/../g/./" + strings.TrimPrefix(e.Rel, "g/")}))
+		}
+	}
+	pool = append(pool, R+"/g/missing", R+"/safe/a.txt", "http://lists.example/a.txt")
+	used := map[string]bool{}
+	for i, k := 0, r.Intn(4); i < k; i++ {
+		loc := vfPick(r, pool)
+		if used[loc] {
+			continue
+		}
+		used[loc] = true
+		p := c17Plant{URL: loc, Enabled: !r.Chance(1, 5)}
+		if r.Chance(1, 4) {
+			p.Loaded = 77
+		}
+		if r.Chance(1, 4) {
+			allow = append(allow, p)
+		} else {
+			block = append(block, p)
+		}
+		classes = append(classes, "planted")
+	}
+	known := []string{}
+	for u := range used {
+		known = append(known, u)
+	}
+	sort.Strings(known)
+	for i, n := 0, 2+r.Intn(5); i < n; i++ {
+		switch r.Intn(8) {
+		case 0, 1, 2:
+			loc := vfPick(r, pool)
+			ops = append(ops, c17Op{Kind: "add", Loc: loc, White: r.Chance(1, 4)})
+			known = append(known, loc)
+		case 3, 4:
+			loc := vfPick(r, pool)
+			old := "http://nobody.example/x"
+			if len(known) > 0 && !r.Chance(1, 8) {
+				old = vfPick(r, known)
+			}
+			ops = append(ops, c17Op{Kind: "set", Old: old, Loc: loc, Enabled: !r.Chance(1, 4), White: r.Chance(1, 4)})
+			known = append(known, loc)
+		case 5:
+			var due []string
+			for _, u := range known {
+				if r.Chance(2, 3) {
+					due = append(due, u)
+				}
+			}
+			ops = append(ops, c17Op{Kind: "periodic", Due: due})
+			classes = append(classes, "periodic")
+		default:
+			ops = append(ops, c17Op{Kind: "refresh", White: r.Chance(1, 4)})
+		}
+	}
+	classes = append(classes, "glob-space")
+	for _, g := range pats {
+		if ok, err := filepath.Match(g, g); err == nil && !ok {
+			classes = append(classes, "pattern-not-matching-own-text")
+		} else if err != nil {
+			classes = append(classes, "pattern-malformed")
+		}
+	}
+	return pats, extra, block, allow, ops, classes
 }
 
 func c17EmitValidate(out *vfOut, tr *c17Tree, d *DNSFilter, pats []string, loc, cl string) {
@@ -1083,7 +1266,57 @@ func TestVerifC17(t *testing.T) {
 		}
 	}
 
+	// The glob space: a file named exactly like a configured pattern that does
+	// not match its own text (class, escape, negated class) must not be read at
+	// any entry point, the file the pattern does match may; and patterns that
+	// legitimately match a name with brackets in it.
+	type c17TextPre struct {
+		pats          []string
+		good, hostile string
+	}
+	for _, tp := range []c17TextPre{
+		{[]string{R + "/safe/[ab].txt"}, R + "/safe/a.txt", R + "/safe/[ab].txt"},
+		{[]string{R + "/safe/\\*.txt"}, R + "/safe/*.txt", R + "/safe/\\*.txt"},
+		{[]string{R + "/safe/[^a].txt", R + "/safe/[a-b].txt"}, R + "/safe/A.txt", R + "/safe/[^a].txt"},
+		{[]string{R + "/safe/?[!a-b].txt", R + "/safe/[ab].tx[t]"}, R + "/safe/a.txt", R + "/safe/[ab].txt"},
+		{[]string{R + "/safe/[[]ab].txt"}, R + "/safe/[ab].txt", R + "/safe/a.txt"},
+		{[]string{R + "/safe/\\[ab\\].txt", R + "/safe/\\[^a].txt"}, R + "/safe/[^a].txt", R + "/safe/\\*.txt"},
+	} {
+		h := tp.hostile
+		c17History(t, out, tr, dataDir, tp.pats, nil, nil,
+			[]c17Op{{Kind: "add", Loc: h}, {Kind: "add", Loc: tp.good}, {Kind: "add", Loc: h + "/.", White: true}}, []string{"pre-add-pattern-text", "glob-space"})
+		c17History(t, out, tr, dataDir, tp.pats, []c17Plant{{URL: tp.good, Enabled: true}}, nil,
+			[]c17Op{{Kind: "refresh"}, {Kind: "set", Old: tp.good, Loc: h, Enabled: true}, {Kind: "refresh"}}, []string{"pre-set-pattern-text", "glob-space"})
+		c17History(t, out, tr, dataDir, tp.pats, []c17Plant{{URL: h, Enabled: true}, {URL: tp.good, Enabled: true}}, []c17Plant{{URL: R + "/safe/../safe/" + filepath.Base(h), Enabled: true, Loaded: 77}},
+			[]c17Op{{Kind: "refresh"}, {Kind: "refresh", White: true}}, []string{"pre-refresh-pattern-text", "glob-space"})
+		c17History(t, out, tr, dataDir, tp.pats, []c17Plant{{URL: h, Enabled: true}}, []c17Plant{{URL: tp.good, Enabled: true}, {URL: h + "/", Enabled: true}},
+			[]c17Op{{Kind: "periodic", Due: []string{tp.good}}, {Kind: "periodic", Due: []string{h, h + "/"}}}, []string{"pre-periodic-pattern-text", "glob-space", "periodic"})
+	}
+
+	// every curated glob text alone as the pattern R/g/<text>, with the file of
+	// that name (and the candidates) on disk: planted and refreshed, offered to
+	// add in another spelling, set as the URL of an http list
+	for _, name := range c17GlobNames {
+		own := R + "/g/" + name
+		extra := []c17Extra{{Rel: "g/" + name, Marker: 21}}
+		for i, cand := range []string{"a", "b", "ab", "x", "*", "[", "ax", "bb", "^"} {
+			if cand != name {
+				extra = append(extra, c17Extra{Rel: "g/" + cand, Marker: 31 + i})
+			}
+		}
+		c17HistoryX(t, out, tr, dataDir, extra, []string{own},
+			[]c17Plant{{URL: own, Enabled: true}, {URL: "http://lists.example/a.txt", Enabled: true}}, []c17Plant{{URL: R + "/g/a", Enabled: true}},
+			[]c17Op{{Kind: "refresh"}, {Kind: "add", Loc: R + "/g/../g/" + name}, {Kind: "set", Old: "http://lists.example/a.txt", Loc: own + "/", Enabled: true}, {Kind: "refresh", White: true}, {Kind: "periodic", Due: []string{own, own + "/", R + "/g/a"}}},
+			[]string{"pre-glob-name", "glob-space"})
+	}
+
 	rnd := vfNewRand(out.Seed)
+	// generated patterns, each with a file named like its own text
+	rgl := rnd.Fork(5)
+	for i, n := 0, out.Scale(70, 2500); i < n; i++ {
+		pats, extra, block, allow, ops, cls := c17GenGlobHistory(rgl, tr)
+		c17HistoryX(t, out, tr, dataDir, extra, pats, block, allow, ops, cls)
+	}
 	rh := rnd.Fork(1)
 	n := out.Scale(400, 4000)
 	for i := 0; i < n; i++ {
@@ -1117,7 +1350,14 @@ func TestVerifC17(t *testing.T) {
 	rg := rnd.Fork(3)
 	n = out.Scale(3000, 60000)
 	for i := 0; i < n; i++ {
-		c17EmitGlob(out, c17GenPattern(rg), c17GenName(rg))
+		pat := c17GenPattern(rg)
+		c17EmitGlob(out, pat, c17GenName(rg))
+		// the pattern's own text as a name: equal text is not a match
+		c17EmitGlob(out, pat, pat)
+	}
+	for _, name := range c17GlobNames {
+		c17EmitGlob(out, R+"/g/"+name, R+"/g/"+name)
+		c17EmitGlob(out, name, name)
 	}
 	for _, pats := range sets {
 		for _, g := range pats {
